@@ -36,6 +36,7 @@ type outcome struct {
 	Kind     string `json:"kind"`
 	RelayURL string `json:"relay,omitempty"`
 	Hold     bool   `json:"hold,omitempty"` // connect kinds: keep the session open (fills capacity)
+	Offer    string `json:"offer,omitempty"` // kind offer-custom: the offer handed to the proxy, verbatim
 }
 
 type sessCase struct {
@@ -183,6 +184,9 @@ func (r *rig) roundTrip(req *http.Request) (*http.Response, error) {
 		case "offer-answer-type":
 			b, _ := messages.EncodePollResponseWithRelayURL(`{"type":"answer","sdp":"v=0\r\n"}`, true, "unknown", o.RelayURL, "")
 			return httpResp(200, string(b)), nil
+		case "offer-custom":
+			b, _ := messages.EncodePollResponseWithRelayURL(o.Offer, true, "unknown", o.RelayURL, "")
+			return httpResp(200, string(b)), nil
 		default:
 			// kinds that hand over a real offer
 			var offer string
@@ -213,7 +217,7 @@ func (r *rig) roundTrip(req *http.Request) (*http.Response, error) {
 		switch o.Kind {
 		case "answer-transport-error":
 			return nil, errors.New("broken pipe")
-		case "answer-client-gone", "relay-url":
+		case "answer-client-gone", "relay-url", "offer-custom":
 			return httpResp(200, `{"Status":"client gone"}`), nil
 		case "answer-500":
 			return httpResp(500, ""), nil
@@ -384,7 +388,8 @@ func runSessions(t *testing.T, c sessCase) error {
 		done := make(chan struct{})
 		go func() { sf.runSession(fmt.Sprintf("sid-%d", i)); close(done) }()
 		budget := 15 * time.Second
-		if o.Kind == "client-never-connects" || o.Kind == "client-connects-no-datachannel" {
+		if o.Kind == "client-never-connects" || o.Kind == "client-connects-no-datachannel" || o.Kind == "offer-custom" {
+			// (a mutated offer that the proxy can still answer is a client that never connects)
 			budget = dataChannelTimeout + 15*time.Second
 		}
 		select {
